@@ -42,7 +42,6 @@ macro_rules! c18_set {
             }
 
             #[kani::proof]
-            #[kani::unwind(300)]
             pub fn c18_q_add_bit() {
                 let calls = Cell::new(0);
                 let mut x = parts(&calls);
@@ -62,13 +61,11 @@ macro_rules! c18_set {
             }
 
             #[kani::proof]
-            #[kani::unwind(300)]
             pub fn c18_q_add_word() {
                 let calls = Cell::new(0);
                 let mut x = parts(&calls);
                 let mut kb = assemble(&x);
-                let w: u16 = kani::any();
-                kani::assume(w < 2048);
+                let w: u16 = kani::any(); // every 16-bit word: the Keyboard must mirror the frame stage on all of them
                 let got = kb.add_word(w);
                 let want = match x.p.add_word(w) {
                     Err(e) => Err(e),
@@ -82,7 +79,6 @@ macro_rules! c18_set {
             }
 
             #[kani::proof]
-            #[kani::unwind(300)]
             pub fn c18_q_add_byte() {
                 let calls = Cell::new(0);
                 let mut x = parts(&calls);
@@ -97,7 +93,6 @@ macro_rules! c18_set {
             }
 
             #[kani::proof]
-            #[kani::unwind(300)]
             pub fn c18_q_process_keyevent() {
                 let calls = Cell::new(0);
                 let mut x = parts(&calls);
@@ -120,7 +115,6 @@ macro_rules! c18_set {
             }
 
             #[kani::proof]
-            #[kani::unwind(300)]
             pub fn c18_q_clear_and_ctrl() {
                 let calls = Cell::new(0);
                 let mut x = parts(&calls);
@@ -156,7 +150,6 @@ macro_rules! c18_set {
             /// Thorough: three symbolic operations in a row from new(), public API only, against
             /// three separately driven stages.
             #[kani::proof]
-            #[kani::unwind(300)]
             pub fn c18_t_three_ops() {
                 let calls = Cell::new(0);
                 let h = any_mode();
